@@ -224,9 +224,9 @@ def run(ctx):
                             "incl. initial enter, rtc on/off, sync/async); non-trivial = at least one nested "
                             "send was actually issued from a callback; distinct = hash of the scenario text")
     n = engine_check(ctx, PROFILE, 1100, 12000, nontrivial, monitor=monitor, post=post, tag="C03s",
-                     extra_scns=chain_scenarios(ctx))
+                     extra_scns=chain_scenarios(ctx), share=0.5)
     cov1 = dict(ctx.coverage)
-    engine_check(ctx, PROFILE_ASYNC, 450, 6000, nontrivial, monitor=monitor, tag="C03a", mutate=mutate_async)
+    engine_check(ctx, PROFILE_ASYNC, 450, 6000, nontrivial, monitor=monitor, tag="C03a", mutate=mutate_async, share=0.6)
     for k in ("evaluations", "distinct_nontrivial", "traces_validated_against_impl", "disagreements", "monitor_failures"):
         ctx.coverage[k] = ctx.coverage.get(k, 0) + cov1.get(k, 0)
     ctx.coverage["distribution_sync"] = cov1.get("distribution")
